@@ -164,7 +164,11 @@ pub fn final_check(s: &In) -> Result<(), Violation> {
     // every packet of these histories is valid and every handler succeeds: the only thing that may end the
     // connection is the v5 receive-maximum rule. Anything else - e.g. a keep-alive timeout while reading was
     // paused by the limits - means packets the peer sent are never handled (seeded change C12_r6)
-    if !stops.is_empty() && !quota {
+    // (a QoS 0 publish whose handler fails cannot be answered with a negative acknowledgement: the connection ends
+    // with the application's error)
+    let app_error = handler_records(s).iter().any(|h| matches!(h.exit, Some((_, GateOutcome::Err))) || (h.qos == 0 && matches!(h.exit, Some((_, GateOutcome::Nack(_))))));
+    let explained = quota || (app_error && stops.iter().all(|x| x.starts_with("Stop:Error")));
+    if !stops.is_empty() && !explained {
         return Err(viol(s, "connection-ended", format!("max_receive={max_n}"), format!("a peer that sent valid packets only and stayed within the limits was disconnected: {stops:?}")));
     }
     // liveness: all gates were opened by the drain; on a healthy connection every complete publish was handled
@@ -232,7 +236,10 @@ pub fn configs(tier: Tier) -> Vec<InCfg> {
                     alphabet,
                     prologue: vec![],
                     max_len: if tier == Tier::Quick { 3 } else { 4 },
-                    outcomes: vec![GateOutcome::Ok],
+                    // v5 server, Receive Maximum 1: also handler errors mapped to a negative acknowledgement - a QoS 2
+                    // publish refused with PUBREC >= 0x80 is finished and must give its quota slot back (seeded change
+                    // C19_r6 released the packet id but not the slot)
+                    outcomes: if ver == Ver::V5 && role == Role::Server && n == 1 && sz == 65535 { vec![GateOutcome::Ok, GateOutcome::Nack(0x87)] } else { vec![GateOutcome::Ok] },
                     poutcomes: vec![GateOutcome::Ok],
                     cork: false,
                     judge: J_C12,
